@@ -156,12 +156,13 @@ def exp_case(ctx, alg, iso, cfg, name):
     if out is None:
         return
     E, sq, rotated = out
-    kind = rng.choice(['float', 'float', 'int', 'complex', 'sympy', 'array0d', 'ndarray'])
+    kind = rng.choice(['float', 'float', 'int', 'complex', 'sympy', 'array0d', 'ndarray', 'npfloat32', 'npint64', 'npfloat64'])
     scale = rng.choice((0.5, -1.25, 2.0, 0.75, 1.0))
-    if kind == 'int':
+    if kind in ('int', 'npint64'):
         scale = rng.choice((1, 2, -1))
         if any(c.denominator != 1 for c in E.values()):
-            kind = 'float'
+            kind = 'float' if kind == 'int' else 'npfloat64'
+            scale = float(scale)
     if kind == 'complex':
         scale = complex(rng.choice((0.5, 1.0)), rng.choice((0.25, -0.5)))
     # kingdon operand
@@ -178,6 +179,10 @@ def exp_case(ctx, alg, iso, cfg, name):
         vals = [sympy.Rational(kd[k].numerator, kd[k].denominator) * s for k in keys]
     elif kind == 'array0d':
         vals = [np.array(float(kd[k]) * scale) for k in keys]
+    elif kind in ('npfloat32', 'npint64', 'npfloat64'):
+        # numpy scalar types: what indexing an array-valued multivector of that dtype leaves as coefficients
+        ty = {'npfloat32': np.float32, 'npint64': np.int64, 'npfloat64': np.float64}[kind]
+        vals = [ty(float(kd[k]) * scale) if kind != 'npint64' else ty(int(kd[k]) * scale) for k in keys]
     else:
         vals = [np.array([float(kd[k]) * scale, float(kd[k]) * 0.5]) for k in keys]
     x = gen.mv_from(alg, keys, vals)
@@ -211,7 +216,9 @@ def exp_case(ctx, alg, iso, cfg, name):
     ctx.case(cid)
     if ctx.evaluations % 150 < 3:
         ctx.sample({'config': name, 'identity': 'exp == power series', 'operand': {alg.bin2canon[k]: str(v) for k, v in zip(keys, vals)}, 'square_sign': sq})
-    bad = elem_diff(got_ref, want, tol=1e-8)
+    bad = elem_diff(got_ref, want, tol=1e-8 if kind != 'npfloat32' else 1e-5)
+    if not bad and any(v != v for v in got_ref.values()):
+        bad = sorted(k for k, v in got_ref.items() if v != v)        # nan
     if bad:
         ctx.violation('exp(x) differs from the power series', cid, config=cfg, coefficient_kind=kind, square_sign=sq, rotated=rotated,
                       operand={alg.bin2canon[k]: str(v) for k, v in zip(keys, vals)},
